@@ -89,8 +89,12 @@ def combos(chk, tier):
     (d / "first.krome").write_text("@format:idx,R,R,R,P,P,P,P,Tmin,Tmax,rate\n1,H,E,,H+,E,E,,NONE,NONE,1.0d-10*Te\n")
     (d / "second.krome").write_text("@common:user_av2\n@var:kdust = 1.0d-3*user_av2\n@format:idx,R,R,R,P,P,P,P,Tmin,Tmax,rate\n"
                                     "2,H,H,,H2,,,,NONE,NONE,kdust*1.0d-17\n")
+    (d / "commons.krome").write_text("@common:user_crate,user_av2\n@common: user_fsh\n@common:user_tdust\n@var:kdust = 1.0d-3*user_av2\n"
+                                     "@format:idx,R,R,R,P,P,P,P,Tmin,Tmax,rate\n1,H,E,,H+,E,E,,NONE,NONE,user_crate*1.0d-10*Te\n"
+                                     "2,H+,E,,H,,,,NONE,NONE,3.0d-12*user_fsh*invTe\n3,H,H,,H2,,,,NONE,NONE,kdust*1.0d-17*sqrt(user_tdust)\n")
     KE = dict(elements=["E", "H"], pseudo_elements=["g"])
     out.append(("krome-late-directives+nograin", [d / "late.krome"], ["krome"], "", {}, KE))
+    out.append(("krome-several-commons+nograin", [d / "commons.krome"], ["krome"], "", {}, KE))
     out.append(("krome-two-files+nograin", [d / "first.krome", d / "second.krome"], ["krome", "krome"], "", {}, KE))
     out.append(("uclchem-ice+rr07", [d / "ice-notherm.ucl"], ["uclchem"], "rr07", {}, E))
     out.append(("uclchem-ice+rr07x", [d / "ice.ucl"], ["uclchem"], "rr07x", {}, E))
